@@ -104,6 +104,25 @@ theorem phaseCoverage_def (n : Nat) (hn : n ≠ 0) (l : List α) :
   unfold phaseCoverage
   rw [if_neg hn, occupied_eq_card]
 
+theorem occupied_le (n : Nat) (l : List α) : occupied n l ≤ n := by
+  unfold occupied hist
+  calc _ ≤ ((List.range n).map fun k => (l.filter (inBin n k)).length).length := List.length_filter_le _ _
+    _ = n := by simp
+
+/-- `phase_coverage` is a fraction: it lies in `[0, 1]`, for every observation list and every bin count ≥ 1 -/
+theorem phaseCoverage_bounds (n : Nat) (l : List α) (c : α) (h : phaseCoverage n l = some c) : 0 ≤ c ∧ c ≤ 1 := by
+  unfold phaseCoverage at h
+  split at h
+  · simp at h
+  · rename_i hn
+    simp only [Option.some.injEq] at h
+    subst h
+    have hpos : (0 : α) < (n : α) := by exact_mod_cast Nat.pos_of_ne_zero hn
+    have hle : (occupied n l : α) ≤ (n : α) := by exact_mod_cast occupied_le n l
+    constructor
+    · exact div_nonneg (by exact_mod_cast Nat.zero_le _) hpos.le
+    · rw [div_le_one hpos]; exact hle
+
 /-- bin `k` is `[k/n, (k+1)/n)`, the last bin is closed at 1 -/
 theorem inBin_def (n k : Nat) (φ : α) :
     inBin n k φ = true ↔
